@@ -17,6 +17,8 @@ D02) over **arbitrary** hello fields, padding policy and extension list; `Hello.
   `overflow_witness_rejected` and a corpus regression case.
 * `marshal_overflow_rejected`, `marshal_bad_random_rejected`, `marshal_prefixes_exact` (framing of the
   extension block needs no well-formedness at all beyond 16-bit type ids).
+* `hrr_cookie_insert_valid` — the second hello after a HelloRetryRequest (cookie inserted anywhere below
+  the end): no type repeats, nothing is lost, valid or error.
 * `sni_absent_iff`, `sni_present_body`, `sni_no_trailing_dot` — SNI shapes.
 -/
 namespace C02
@@ -176,6 +178,32 @@ theorem marshal_prefixes_exact (f : HelloFields) (pol : PadPolicy) (xs : List Ex
   obtain ⟨a, ha, rfl⟩ := List.mem_map.mp he
   rw [updatePad_typeId]; exact ht a ha
 
+/-! ## The second ClientHello after a HelloRetryRequest -/
+
+/-- **hrr_cookie_insert_valid**: `processHelloRetryRequest` re-marshals `uconn.Extensions` after inserting
+the server's cookie at an index below the end. For a spec within limits that has no cookie extension of
+its own, a non-empty cookie that fits its length field and *any* such index: the new list is again within
+limits (no type repeats, pre_shared_key still last), it is exactly one element longer and erasing the
+cookie gives the old list back (no extension is lost) — so by `marshal_valid` the second hello is a valid
+ClientHello (or an error), for every hello, policy, list and index. -/
+theorem hrr_cookie_insert_valid (f : HelloFields) (pol : PadPolicy) (xs : List Ext) (i : Nat) (c : Bytes)
+    (hs : specOK f xs = true) (hno : ∀ x ∈ xs, typeId x ≠ 44) (hi : i < xs.length)
+    (hc : c ≠ []) (hl : 2 + c.length < 65536) :
+    specOK f (insertAt i (cookie c) xs) = true ∧
+    (insertAt i (cookie c) xs).length = xs.length + 1 ∧
+    (insertAt i (cookie c) xs).eraseIdx i = xs ∧
+    ∀ bs, marshalNoECH f pol (insertAt i (cookie c) xs) = .ok bs →
+      ∃ p, parseCH bs = some p ∧ validCH p = true ∧ p.exts = expectedExts f pol (insertAt i (cookie c) xs) := by
+  have hok : extOKb (cookie c) = true := by
+    cases c with
+    | nil => exact absurd rfl hc
+    | cons a r => simp only [extOKb, List.isEmpty_cons, Bool.not_false, Bool.true_and, decide_eq_true_eq]; exact hl
+  obtain ⟨h1, h2, h3⟩ := specOK_insertAt f xs i (cookie c) hs hok hno (by simp [typeId]) hi
+  refine ⟨h1, h2, h3, ?_⟩
+  intro bs hbs
+  obtain ⟨p, hp1, hp2, _, _, _, _, _, hp8⟩ := marshal_valid f pol _ bs h1 hbs
+  exact ⟨p, hp1, hp2, hp8⟩
+
 /-! ## SNI shapes -/
 
 /-- the SNI extension is absent exactly for names that `hostnameInSNI` maps to the empty string … -/
@@ -256,6 +284,17 @@ example : ∃ p, parseCH exRaw = some p ∧ validCH p = true ∧ p.extTypes = [0
 /-- IP literal, empty and all-dots names emit no SNI; a trailing dot is stripped. -/
 example : emit (sni [49, 46, 50, 46, 51, 46, 52]) = [] ∧ emit (sni []) = [] ∧ emit (sni [46, 46]) = [] ∧
     emit (sni [97, 46]) = [0, 0, 0, 6, 0, 4, 0, 0, 1, 97] := by decide +kernel
+/-- the example spec with a 32-byte cookie inserted at index 3 (as after a HelloRetryRequest) is within
+limits again and marshals to a valid hello carrying the cookie once (now long enough to be padded). -/
+def exRaw2 : Bytes :=
+  match marshalNoECH exFields .boring (insertAt 3 (cookie (List.replicate 32 5)) exExts) with
+  | .ok bs => bs
+  | .err _ => []
+
+example : specOK exFields (insertAt 3 (cookie (List.replicate 32 5)) exExts) = true ∧
+    marshalNoECH exFields .boring (insertAt 3 (cookie (List.replicate 32 5)) exExts) = .ok exRaw2 ∧
+    ((parseCH exRaw2).map fun p => p.extTypes) = some [0x0a0a, 0, 10, 44, 16, 51, 43, 21, 41] := by
+  decide +kernel
 /-- a 31-byte random is refused by the final length check. -/
 example : marshalNoECH { exFields with random := List.replicate 31 7 } .boring exExts = .err .length := by decide +kernel
 /-- the marshaller does return errors: a second padding extension. -/
